@@ -25,7 +25,7 @@ func init() {
 		Assumptions: []string{"sync.Cond.Wait returns with the lock held", "the generic cache fires the eviction callback exactly once per entry (C15)"},
 		Tech:        "static analysis: lock-state dataflow on cacheWrapper/sharedEncryption, loop-exit guarded-by-condition, who-may-call over the closure-binding call graph",
 		NeedU1:      true,
-		Rules:       []func(*Ctx){ruleC16GetAtomic, ruleC16TeardownWaits, ruleC16SingleTeardownPath, ruleC16SharedWrapper, ruleC15CallbackExactlyOnce},
+		Rules:       []func(*Ctx){ruleC16GetAtomic, ruleC16TeardownWaits, ruleC16SingleTeardownPath, ruleC16SharedWrapper, ruleC15CallbackExactlyOnce, ruleC15RemovalNotifies, ruleC15ExpiryEvicts, ruleC15RemoveUnlinks, ruleC15RelinkIsAMove, ruleC15ElementRecorded, lockBalancedRule("C16", 5, lockDomSpec{pkgApp, "cacheWrapper", "mu"}, lockDomSpec{pkgApp, "sharedEncryption", "mu"})},
 	})
 }
 
@@ -96,6 +96,73 @@ func ruleC16GetAtomic(c *Ctx) {
 	if n < 3 {
 		c.bad("cacheWrapper/ops", "", fmt.Sprintf("expected at least 3 guarded operations, found %d", n))
 	}
+	// helpers that run inside Get's critical section never touch c.mu themselves (an unlock/relock around a slow step
+	// splits lookup-or-load from the insert: two callers load the same partition and one session is silently replaced)
+	for _, f := range d.funcs {
+		if d.entry[f]&lsW == 0 || f.Blocks == nil {
+			continue
+		}
+		rp := recvPathOf(f)
+		var op ssa.Instruction
+		allInstrs(f, func(i ssa.Instruction) {
+			if _, isOp := d.lockOpKind(i, rp); isOp {
+				op = i
+			}
+		})
+		if op != nil {
+			c.bad(shortName(f)+"/critical-section-intact", u.ipos(op), "a helper that runs with c.mu held releases/re-acquires c.mu: lookup-or-load-and-insert is no longer one critical section (two concurrent callers for an uncached partition each load a session and one replaces the other without teardown)")
+		} else {
+			c.ok(shortName(f)+"/critical-section-intact", u.pos(f.Pos()), "no lock operation inside the helper")
+		}
+	}
+	// every holder is counted: each success return of Get passes the usage increment of the returned session, and the
+	// increment really adds one to accessCounter on every path
+	if get := u.Method(pkgApp, "cacheWrapper", "Get"); get != nil {
+		for _, r := range returnsOf(get) {
+			if !isNilValue(returnedValue(r, 1)) || isNilValue(returnedValue(r, 0)) {
+				continue
+			}
+			found, tr := pathSearchAt(get.Blocks[0], 0, func(i ssa.Instruction) pathAction {
+				if _, isCall := i.(*ssa.Call); isCall {
+					if g := staticCallee(i); g != nil && mustIncrementHolder(g, 0) {
+						return pathStop
+					}
+				}
+				if i == ssa.Instruction(r) {
+					return pathFound
+				}
+				return pathContinue
+			}, nil)
+			if found {
+				c.bad(shortName(get)+"/holder-counted", u.ipos(r), "a session is handed out without its holder being counted (accessCounter++): the eviction teardown does not wait for this holder and closes the session under it", u.tracePositions(tr)...)
+			} else {
+				c.ok(shortName(get)+"/holder-counted", u.ipos(r), "every success return passes the usage increment")
+			}
+		}
+	}
+}
+
+// mustIncrementHolder: every path of g adds one to sharedEncryption.accessCounter (directly or through a callee).
+func mustIncrementHolder(g *ssa.Function, depth int) bool {
+	if g == nil || g.Blocks == nil || depth > 3 {
+		return false
+	}
+	incs := map[ssa.Instruction]bool{}
+	for _, st := range counterStores(g, token.ADD) {
+		incs[st] = true
+	}
+	ok, _ := mustPass(g.Blocks[0], 0, func(i ssa.Instruction) bool {
+		if incs[i] {
+			return true
+		}
+		if _, isCall := i.(*ssa.Call); isCall {
+			if h := staticCallee(i); h != nil && h != g && h.Pkg != nil && h.Pkg.Pkg.Path() == pkgApp {
+				return mustIncrementHolder(h, depth+1)
+			}
+		}
+		return false
+	}, nil)
+	return ok
 }
 
 func ruleC16TeardownWaits(c *Ctx) {
